@@ -325,3 +325,13 @@ def run(facts, rep, ctx):
     from . import round5
     round5.zr1(facts, rep)
     round5.cs1(facts, rep)
+
+
+_run_before_round6 = run
+
+
+def run(facts, rep, ctx):
+    """rules added after the fifth seeding round (rules/round6.py)"""
+    _run_before_round6(facts, rep, ctx)
+    from . import round6
+    round6.tb5b(facts, rep)
